@@ -196,7 +196,8 @@ fn d_per_lp_check(s: &Pool2, ctx: &mut Ctx, amp: u64, before: &Obs, after: &Obs,
     let na = norm(s, after.reserves);
     let db = d_star(nb[0], nb[1], ann);
     let da = d_star(na[0], na[1], ann);
-    let lhs = da * w(before.share);
+    // D* is a floor in units of 1e-18 token: give the "after" side its full unit
+    let lhs = (da + U1024::ONE) * w(before.share);
     let rhs = db * w(after.share);
     if lhs >= rhs {
         return;
@@ -214,7 +215,10 @@ fn d_per_lp_check(s: &Pool2, ctx: &mut Ctx, amp: u64, before: &Obs, after: &Obs,
             let d0 = compute_d_raw_emulated(amp, before.reserves[0], before.reserves[1]);
             let d1 = compute_d_raw_emulated(amp, before.reserves[0].saturating_add(amounts[0]), before.reserves[1].saturating_add(amounts[1]));
             if let (Some(d0), Some(d1)) = (d0, d1) {
-                if d1 > d0 && d0 > U1024::ZERO && w(before.share) * (d1 - d0) / d0 == w(minted) && (rhs - lhs) * u1024(1_000_000) < rhs {
+                let exact_mint = if db > U1024::ZERO && da > db { w(before.share) * (da - db) / db } else { U1024::ZERO };
+                let ratio = if db > U1024::ZERO { da / db + U1024::ONE } else { U1024::ONE };
+                let small = (rhs - lhs) * u1024(1_000_000) < rhs || w(minted) <= exact_mint + u1024(4) * (U1024::ONE + ratio);
+                if d1 > d0 && d0 > U1024::ZERO && w(before.share) * (d1 - d0) / d0 == w(minted) && small {
                     known = Some("D16");
                 }
             }
